@@ -22,6 +22,14 @@ type Resp struct {
 	// IDDelta is added to the correlation id echoed in the response (0 = the request's id; anything else is a framing
 	// error of the broker: a response nobody asked for).
 	IDDelta int32
+	// Stall (with Cut >= 0): after the prefix the broker goes silent instead of dropping the connection
+	Stall bool
+	// Pause (with Cut >= 0): the broker writes Cut bytes, waits Pause, then writes the
+	// rest of the frame and carries on — a slow link, nothing is lost
+	Pause time.Duration
+	// SizeSet: the size prefix of the frame is Size instead of len(Body)+4 (a lying size prefix)
+	SizeSet bool
+	Size    int32
 }
 
 // Req is one request seen by the broker.
@@ -38,8 +46,8 @@ type Broker struct {
 	log      []Req
 	written  int // bytes of responses written so far
 	srv      net.Conn
-	hold     int      // >0: collect this many responses before writing any (several requests in flight)
-	holdCut  int      // cut position over the concatenation of the held frames (<0: none)
+	hold     int // >0: collect this many responses before writing any (several requests in flight)
+	holdCut  int // cut position over the concatenation of the held frames (<0: none)
 	pending  [][]byte
 	rawResp  []byte // != nil: the next exchange is un-framed (sasl v0 token): [int32 len][bytes] both ways
 	rawCut   int
@@ -136,20 +144,40 @@ func (b *Broker) serve() {
 	// responses are written by a second goroutine so that the broker keeps reading requests while a response waits
 	// for the client to read it (net.Pipe has no buffer; a real socket has one)
 	type outFrame struct {
-		f   []byte
-		cut bool
+		f       []byte
+		cut     bool
+		stall   bool
+		pauseAt int
+		pause   time.Duration
 	}
 	wq := make(chan outFrame, 256)
 	defer close(wq)
 	go func() {
 		for o := range wq {
 			b.srv.SetWriteDeadline(time.Now().Add(10 * time.Second))
+			if o.pause > 0 {
+				n, err := b.srv.Write(o.f[:o.pauseAt])
+				b.mu.Lock()
+				b.written += n
+				b.mu.Unlock()
+				if err != nil {
+					b.srv.Close()
+					for range wq {
+					}
+					return
+				}
+				time.Sleep(o.pause)
+				o.f = o.f[o.pauseAt:]
+				b.srv.SetWriteDeadline(time.Now().Add(10 * time.Second))
+			}
 			n, err := b.srv.Write(o.f)
 			b.mu.Lock()
 			b.written += n
 			b.mu.Unlock()
 			if err != nil || o.cut {
-				b.srv.Close()
+				if err != nil || !o.stall {
+					b.srv.Close()
+				}
 				for range wq {
 				}
 				return
@@ -177,7 +205,7 @@ func (b *Broker) serve() {
 			if cut {
 				raw = raw[:rawCut]
 			}
-			wq <- outFrame{raw, cut}
+			wq <- outFrame{f: raw, cut: cut}
 			if cut {
 				for i := 0; i < 2000; i++ {
 					if _, err := b.srv.Read(hdr[:1]); err != nil {
@@ -213,6 +241,9 @@ func (b *Broker) serve() {
 			resp = Resp{Body: ApiVersionsBody(0, b.versions), Cut: -1}
 		}
 		f := Frame(r.ID+resp.IDDelta, resp.Body)
+		if resp.SizeSet {
+			binary.BigEndian.PutUint32(f[0:], uint32(resp.Size))
+		}
 		b.mu.Lock()
 		if b.hold > 0 {
 			b.pending = append(b.pending, f)
@@ -229,10 +260,24 @@ func (b *Broker) serve() {
 		}
 		b.mu.Unlock()
 		cut := resp.Cut >= 0 && resp.Cut < len(f)
+		if cut && resp.Pause > 0 {
+			// the writer goroutine writes the prefix, sleeps, writes the rest: later responses stay behind it
+			wq <- outFrame{f: f, pauseAt: resp.Cut, pause: resp.Pause}
+			continue
+		}
 		if cut {
 			f = f[:resp.Cut]
 		}
-		wq <- outFrame{f, cut}
+		wq <- outFrame{f: f, cut: cut, stall: resp.Stall}
+		if cut && resp.Stall {
+			// silent from here on: requests are read and ignored until the client gives up / Stop
+			buf := make([]byte, 4096)
+			for {
+				if _, err := b.srv.Read(buf); err != nil {
+					return
+				}
+			}
+		}
 		if cut {
 			// the connection is dropped by the writer once the prefix is out; nothing more is read
 			for i := 0; i < 2000; i++ {
@@ -256,6 +301,7 @@ type W struct {
 func (w *W) I8(v int8)   { w.B = append(w.B, byte(v)) }
 func (w *W) I16(v int16) { w.B = append(w.B, byte(v>>8), byte(v)) }
 func (w *W) I32(v int32) { w.B = append(w.B, byte(v>>24), byte(v>>16), byte(v>>8), byte(v)) }
+
 // Cnt writes an int32 array count and records where.
 func (w *W) Cnt(v int32) {
 	w.CntPos = append(w.CntPos, len(w.B))
